@@ -1352,6 +1352,15 @@ def _edit(g, rng):
         else:
             e["order"] = 1
         return g
+    if g["nodes"] and rng.random() < 0.1:       # an atom loses / gains a falsy annotation: charge absent is None for the engine (NOT 0),
+        a = rng.choice(g["nodes"])[1]            # the default 0 for the subgraph tests; hcount absent IS 0 for the engine
+        k = rng.choice(["charge", "hcount"])
+        if k in a:
+            if a[k] == 0:
+                a.pop(k)
+        else:
+            a[k] = 0
+        return g
     if z < 0.2 and g["nodes"]:
         rng.choice(g["nodes"])[1]["element"] = rng.choice(["C", "O", "N"])
     elif z < 0.4 and g["nodes"]:
